@@ -21,7 +21,7 @@ from srctools.filesys import VirtualFileSystem
 from srctools.instancing import Instance, InstanceFile, FixupStyle, collapse_one, collapse_all
 from srctools.keyvalues import Keyvalues
 from srctools.math import Vec, Angle, Matrix
-from srctools.vmf import VMF, Output, UVAxis, Side, FixupValue, DispFlag
+from srctools.vmf import VMF, Output, UVAxis, Side, FixupValue, DispFlag, VisGroup
 
 from mcv import core, bfs
 
@@ -555,9 +555,103 @@ def check_termination(acc: core.Acc, gname: str, limit) -> None:
 
 # ------------------------------------------------------------------------------------------------
 
+# ------------------------------------------------------------------------------------------------ visgroup= option
+
+def vis_template() -> str:
+    """Nested visgroups grp > kid > gk, a flat group, members at every level, in two groups, and in none."""
+    v = VMF()
+    grp, flat = v.create_visgroup('grp'), v.create_visgroup('flat')
+    kid, gk = VisGroup(v, 'kid'), VisGroup(v, 'gk')
+    grp.child_groups.append(kid)
+    kid.child_groups.append(gk)
+    for name, groups in (('e_top', [grp]), ('e_kid', [kid]), ('e_gk', [gk]), ('e_flat', [flat]), ('e_none', []), ('e_two', [kid, flat])):
+        e = v.create_ent('info_target', origin='1 2 3', targetname=name)
+        e.visgroup_ids.update(g.id for g in groups)
+    for mat, groups in (('m_kid', [kid]), ('m_none', []), ('m_gk_flat', [gk, flat])):
+        sol = v.make_prism(Vec(0, 0, 0), Vec(8, 8, 8), mat=mat).solid
+        sol.visgroup_ids.update(g.id for g in groups)
+        v.add_brush(sol)
+    return v.export(inc_version=False)
+
+
+VIS_MEMBERS = {'e_top': {'grp'}, 'e_kid': {'kid'}, 'e_gk': {'gk'}, 'e_flat': {'flat'}, 'e_none': set(), 'e_two': {'kid', 'flat'},
+               'm_kid': {'kid'}, 'm_none': set(), 'm_gk_flat': {'gk', 'flat'}}
+VIS_TREE = [['grp', [['kid', [['gk', []]]]]], ['flat', []]]
+
+
+def vis_tree_of(groups) -> list:
+    return [[g.name, vis_tree_of(g.child_groups)] for g in groups]
+
+
+def check_visgroup_modes(acc: core.Acc, mode: str, pre_groups: int, placement: str) -> None:
+    """collapse_one(..., visgroup=False | True | <VisGroup>): which groups exist afterwards and who is in them."""
+    acc.evaluations += 1
+    acc.nontrivial += 1
+    case = {'visgroup_mode': mode, 'pre_groups': pre_groups, 'placement': placement}
+    file = load_template(vis_template())
+    before = file.vmf.export(inc_version=False)
+    target = VMF()
+    own = [target.create_visgroup(f'own{i}') for i in range(pre_groups)]
+    parent = None
+    if mode == 'group':
+        parent = target.create_visgroup('instances')
+    nb, ne = len(target.brushes), len(target.entities)
+    inst = make_inst(placement, FixupStyle.NONE, 'none')
+    try:
+        collapse_one(target, inst, file, visgroup={'false': False, 'true': True, 'group': parent}[mode])
+    except Exception as exc:  # noqa: BLE001
+        acc.fail('collapse_raises', case, f'{case}: collapse_one raised {type(exc).__name__}: {exc!r}', exc=type(exc).__name__)
+        return
+
+    def fail(msg):
+        acc.fail('collapse_visgroups', case, f'{case}: {msg}', clause='visgroups')
+
+    def walk(groups):
+        for g in groups:
+            yield g
+            yield from walk(g.child_groups)
+    allg = list(walk(target.vis_tree))
+    ids = [g.id for g in allg]
+    if len(set(ids)) != len(ids) or any(not isinstance(i, int) or i <= 0 for i in ids):
+        fail(f'visgroup IDs of the target are not unique positive ints: {ids}')
+        return
+    want_tree = [[f'own{i}', []] for i in range(pre_groups)]
+    if mode == 'true':
+        want_tree += VIS_TREE
+    elif mode == 'group':
+        want_tree += [['instances', VIS_TREE]]
+    if vis_tree_of(target.vis_tree) != want_tree:
+        fail(f'visgroup tree afterwards {vis_tree_of(target.vis_tree)}, expected {want_tree}')
+        return
+    copied = {g.name: g.id for g in allg if g.name in ('grp', 'kid', 'gk', 'flat')}
+    objs = [(e['targetname'], e.visgroup_ids) for e in target.entities[ne:]] + [(b.sides[0].mat, b.visgroup_ids) for b in target.brushes[nb:]]
+    if sorted(n for n, _ in objs) != sorted(VIS_MEMBERS):
+        fail(f'objects added: {sorted(n for n, _ in objs)}')
+        return
+    for name, got in objs:
+        if mode == 'false':
+            want = set()
+        else:
+            want = {copied[g] for g in VIS_MEMBERS[name]}
+            if not want and mode == 'group':
+                want = {parent.id}
+        if set(got) != want:
+            fail(f'{name}: member of visgroups {sorted(got)}, expected {sorted(want)} (copied groups {copied})')
+            return
+    if file.vmf.export(inc_version=False) != before:
+        acc.fail('template_modified', case, f'{case}: the template exports differently after the collapse', clause='template')
+
+
 def shard(spec) -> core.Acc:
     acc = core.Acc()
     cache: dict = {}
+    if spec[0] == 'vis':
+        for mode in ('false', 'true', 'group'):
+            for pre in (0, 1, 5):
+                for placement in ('identity', 'general'):
+                    check_visgroup_modes(acc, mode, pre, placement)
+        acc.sample({'visgroup_modes': ['false', 'true', 'group'], 'pre_groups': [0, 1, 5]}, 1)
+        return acc
     if spec[0] == 'cases':
         for names in spec[1]:
             for placement, style, table in spec[2]:
@@ -578,6 +672,7 @@ def run(ctx: core.Ctx) -> None:
     shards = []
     for chunk in core.chunked(subsets, 4):
         shards.append(('cases', chunk, full if (not ctx.quick or all(len(c) == 1 for c in chunk)) else reduced))
+    shards.append(('vis',))
     for g in GRAPHS:
         shards.append(('term', g, None))
         shards.append(('term', g, 5))
@@ -593,7 +688,7 @@ def run(ctx: core.Ctx) -> None:
                                'termination_graphs': list(GRAPHS), 'termination_horizon_collapses': HORIZON})
     ctx.rule = (f'(E) every subset of 1..{k} of {len(names)} template features ({len(subsets)} templates: textured world brush, displacement, '
                 f'explicit point data, brush entity, point entity, pitch entities, relay with outputs, $variables, nested func_instance '
-                f'with fixups, hidden objects, overlay side lists, visgroups, direction keys) x {len(PLACEMENTS)} placements x 3 fixup styles x '
+                f'with fixups, hidden objects, overlay side lists, visgroups, direction keys; nested visgroups under visgroup=False/True/<VisGroup> with 0/1/5 groups already in the target) x {len(PLACEMENTS)} placements x 3 fixup styles x '
                 f'{len(FIXUP_TABLES)} fixup tables (quick: full product for single features, placements + style/table sweep for pairs), each compared with '
                 f'the template transformed by an independent reference (planes, origins, orientation matrices, displacement vectors, '
                 f'texture-coordinate invariance, names, substituted variables) and template export unchanged; (B) BFS over histories of '
@@ -604,7 +699,9 @@ def run(ctx: core.Ctx) -> None:
 
 def replay(case: dict) -> list:
     acc = core.Acc()
-    if 'template' in case:
+    if 'visgroup_mode' in case:
+        check_visgroup_modes(acc, case['visgroup_mode'], case['pre_groups'], case['placement'])
+    elif 'template' in case:
         run_case(acc, tuple(case['template']), case['placement'], FixupStyle[case['style']], case['table'], {})
     elif 'graph' in case:
         check_termination(acc, case['graph'], case['recur_limit'])
